@@ -171,6 +171,8 @@ impl Client {
 struct Bed {
     worker: Worker,
     front: SocketAddr,
+    /// same route on a listener with `h2_max_concurrent_streams = 2`
+    front_limit2: SocketAddr,
     stop_backend: Arc<AtomicBool>,
 }
 
@@ -210,7 +212,11 @@ fn start_bed() -> Result<Bed, String> {
     let stop = Arc::new(AtomicBool::new(false));
     spawn_backend(be, stop.clone());
     worker.add_https_route(front, "localhost", "/", "c0", addr, false).map_err(|e| e.to_string())?;
-    Ok(Bed { worker, front, stop_backend: stop })
+    let front_limit2 = worker
+        .add_https_listener_with(|b| b.h2_max_concurrent_streams = Some(2), |_| {})
+        .map_err(|e| e.to_string())?;
+    worker.add_https_route(front_limit2, "localhost", "/", "c1", addr, false).map_err(|e| e.to_string())?;
+    Ok(Bed { worker, front, front_limit2, stop_backend: stop })
 }
 
 fn good_request(c: &mut Client, sid: u32) -> Result<(), String> {
@@ -399,6 +405,436 @@ fn build_cases(seed: u64, thorough: bool) -> Vec<Case> {
     cases
 }
 
+// ------------------------------------------------- stream-state family ----
+
+#[derive(Clone, Copy, PartialEq, Debug)]
+enum Scene {
+    IdleAbove,
+    ClosedBelow,
+    ClosedEndStreamLast,
+    ClosedEndStreamBelow,
+    ClosedPeerRst,
+    RefusedLimit,
+    RefusedDraining,
+    HalfClosedRemote,
+    Open,
+}
+
+#[derive(Clone, Copy, PartialEq, Debug)]
+enum Fk {
+    Data,
+    Headers,
+    WindowUpdate,
+    RstStream,
+    Priority,
+    Continuation,
+}
+
+#[derive(Clone, PartialEq, Debug)]
+enum Out {
+    Handled,
+    SErr(u32),
+    CErr(u32),
+    Silent,
+}
+
+const SCENES: [Scene; 9] = [
+    Scene::IdleAbove,
+    Scene::ClosedBelow,
+    Scene::ClosedEndStreamLast,
+    Scene::ClosedEndStreamBelow,
+    Scene::ClosedPeerRst,
+    Scene::RefusedLimit,
+    Scene::RefusedDraining,
+    Scene::HalfClosedRemote,
+    Scene::Open,
+];
+const KINDS: [Fk; 6] = [Fk::Data, Fk::Headers, Fk::WindowUpdate, Fk::RstStream, Fk::Priority, Fk::Continuation];
+
+impl Scene {
+    fn name(self) -> &'static str {
+        match self {
+            Scene::IdleAbove => "idle_above",
+            Scene::ClosedBelow => "closed_below",
+            Scene::ClosedEndStreamLast => "closed_end_stream_last",
+            Scene::ClosedEndStreamBelow => "closed_end_stream_below",
+            Scene::ClosedPeerRst => "closed_peer_rst",
+            Scene::RefusedLimit => "refused_limit",
+            Scene::RefusedDraining => "refused_draining",
+            Scene::HalfClosedRemote => "half_closed_remote",
+            Scene::Open => "open",
+        }
+    }
+    /// the state name of the Lean table
+    fn model_state(self) -> &'static str {
+        match self {
+            Scene::ClosedEndStreamLast | Scene::ClosedEndStreamBelow => "closed_end_stream",
+            Scene::RefusedLimit | Scene::RefusedDraining => "refused",
+            o => o.name(),
+        }
+    }
+    fn refused(self) -> bool {
+        matches!(self, Scene::RefusedLimit | Scene::RefusedDraining)
+    }
+}
+
+impl Fk {
+    fn name(self) -> &'static str {
+        match self {
+            Fk::Data => "data",
+            Fk::Headers => "headers",
+            Fk::WindowUpdate => "window_update",
+            Fk::RstStream => "rst_stream",
+            Fk::Priority => "priority",
+            Fk::Continuation => "continuation",
+        }
+    }
+    fn bytes(self, sid: u32) -> Vec<u8> {
+        match self {
+            Fk::Data => frame(0, 0, sid, b"xyz"),
+            Fk::Headers => frame(1, 0x5, sid, &request_block(false, "/")),
+            Fk::WindowUpdate => frame(8, 0, sid, &[0, 0, 0, 1]),
+            Fk::RstStream => frame(3, 0, sid, &8u32.to_be_bytes()),
+            Fk::Priority => frame(2, 0, sid, &[0, 0, 0, 0, 16]),
+            Fk::Continuation => frame(9, 4, sid, &[]),
+        }
+    }
+}
+
+/// RFC 9113 §5.1 (stream states), §5.1.1 (identifiers), §6.4 (RST_STREAM on
+/// idle), §6.10 (CONTINUATION), written from the RFC text: the answers a
+/// conforming server may give. Where the RFC leaves a choice (or RFC 7540
+/// allowed the connection error) every choice is listed.
+fn rfc_stream_allowed(scene: Scene, fk: Fk) -> Vec<Out> {
+    use Out::*;
+    const PE: u32 = 1;
+    const SC: u32 = 5;
+    match fk {
+        // a CONTINUATION not preceded by HEADERS without END_HEADERS: connection error (§6.10)
+        Fk::Continuation => return vec![CErr(PE)],
+        // PRIORITY can be sent and received in any stream state (§5.1, §6.3)
+        Fk::Priority => return vec![Handled],
+        _ => {}
+    }
+    match scene {
+        // idle: anything other than HEADERS or PRIORITY is a connection error PROTOCOL_ERROR
+        Scene::IdleAbove => {
+            if fk == Fk::Headers {
+                vec![Handled]
+            } else {
+                vec![CErr(PE)]
+            }
+        }
+        // an unused id below a used one is implicitly closed (§5.1.1); re-opening it is PROTOCOL_ERROR
+        Scene::ClosedBelow => match fk {
+            Fk::Headers => vec![CErr(PE), CErr(SC)],
+            Fk::Data => vec![SErr(SC), CErr(SC), CErr(PE)],
+            _ => vec![Handled, SErr(SC)],
+        },
+        // closed after END_STREAM: connection error STREAM_CLOSED, WINDOW_UPDATE / RST_STREAM tolerated
+        Scene::ClosedEndStreamLast | Scene::ClosedEndStreamBelow => match fk {
+            Fk::Headers | Fk::Data => vec![CErr(SC), SErr(SC)],
+            _ => vec![Handled, SErr(SC)],
+        },
+        // closed by the peer's RST_STREAM: stream error STREAM_CLOSED
+        Scene::ClosedPeerRst => match fk {
+            Fk::Headers => vec![SErr(SC), CErr(SC)],
+            Fk::Data => vec![SErr(SC)],
+            _ => vec![Handled, SErr(SC)],
+        },
+        // closed by *our* RST_STREAM: frames in flight MUST be ignored (never a connection error)
+        Scene::RefusedLimit | Scene::RefusedDraining => match fk {
+            Fk::Data => vec![Handled, SErr(SC)],
+            _ => vec![Handled],
+        },
+        // half-closed (remote): only WINDOW_UPDATE, PRIORITY, RST_STREAM; otherwise STREAM_CLOSED
+        Scene::HalfClosedRemote => match fk {
+            Fk::Headers | Fk::Data => vec![SErr(SC), CErr(SC)],
+            _ => vec![Handled],
+        },
+        Scene::Open => vec![Handled],
+    }
+}
+
+struct StreamCase {
+    scene: Scene,
+    fk: Fk,
+    batch: bool,
+    ids: [u32; 3],
+}
+
+impl StreamCase {
+    fn name(&self) -> String {
+        format!("stream:{}:{}:{}:{}:{}:{}", self.scene.name(), self.fk.name(), if self.batch { "batch" } else { "seq" }, self.ids[0], self.ids[1], self.ids[2])
+    }
+    fn parse(n: &str) -> Option<StreamCase> {
+        let w: Vec<&str> = n.split(':').collect();
+        if w.len() != 7 || w[0] != "stream" {
+            return None;
+        }
+        Some(StreamCase {
+            scene: *SCENES.iter().find(|s| s.name() == w[1])?,
+            fk: *KINDS.iter().find(|k| k.name() == w[2])?,
+            batch: w[3] == "batch",
+            ids: [w[4].parse().ok()?, w[5].parse().ok()?, w[6].parse().ok()?],
+        })
+    }
+}
+
+fn build_stream_cases(seed: u64, thorough: bool) -> Vec<StreamCase> {
+    let mut out = vec![];
+    let rounds = if thorough { 12 } else { 2 };
+    for round in 0..rounds {
+        let mut rng = Rng::for_case(seed ^ 0x5712_ea11, round);
+        for scene in SCENES {
+            for fk in KINDS {
+                // re-using a refused id / a second HEADERS on an open stream are other questions
+                if fk == Fk::Headers && (scene.refused() || scene == Scene::Open) {
+                    continue;
+                }
+                let s1 = if round == 0 { 1 } else { 1 + 2 * rng.below(30) as u32 };
+                let s2 = s1 + 2 * (1 + if round == 0 { 0 } else { rng.below(5) as u32 });
+                let s3 = s2 + 2 * (1 + if round == 0 { 0 } else { rng.below(5) as u32 });
+                for batch in [false, true] {
+                    let needs_answer_first = matches!(scene, Scene::ClosedEndStreamLast | Scene::ClosedEndStreamBelow | Scene::RefusedDraining);
+                    if batch && needs_answer_first {
+                        continue;
+                    }
+                    out.push(StreamCase { scene, fk, batch, ids: [s1, s2, s3] });
+                }
+            }
+        }
+    }
+    out
+}
+
+const MARK: [u8; 8] = [0xA1; 8];
+const DONE: [u8; 8] = [0xD0; 8];
+
+fn ping_acked(fs: &[Fr], payload: &[u8; 8]) -> bool {
+    fs.iter().any(|f| f.ty == 6 && f.flags & 1 != 0 && f.payload == payload)
+}
+fn stream_ended(fs: &[Fr], sid: u32) -> bool {
+    fs.iter().any(|f| f.sid == sid && (f.ty == 0 || f.ty == 1) && f.flags & 1 != 0)
+}
+
+/// Runs one stream-state case. `bed` is the shared worker except for the
+/// draining scene, which needs a worker of its own (SoftStop is one-shot).
+fn run_stream_case(shared: &mut Bed, case: &StreamCase, model: &str) -> Verdict {
+    let mut v = Verdict { fails: vec![], known: vec![], tags: vec![], observed: String::new() };
+    let name = case.name();
+    let fail = |v: &mut Verdict, class: &str, detail: String| v.fails.push((class.to_string(), format!("{name}: {detail}")));
+    let [s1, s2, s3] = case.ids;
+    let mut own: Option<Bed> = None;
+    let front = if case.scene == Scene::RefusedDraining {
+        match start_bed() {
+            Ok(b) => {
+                let f = b.front;
+                own = Some(b);
+                f
+            }
+            Err(e) => {
+                fail(&mut v, "rig-setup-failed", e);
+                return v;
+            }
+        }
+    } else {
+        shared.front_limit2
+    };
+    let mut c = match Client::connect(front).and_then(|mut c| c.handshake().map(|_| c)) {
+        Ok(c) => c,
+        Err(e) => {
+            fail(&mut v, "handshake-failed", e);
+            return v;
+        }
+    };
+    let get = |sid: u32, path: &str| frame(1, 0x5, sid, &request_block(false, path));
+    let ping = |p: &[u8; 8]| frame(6, 0, 0, p);
+    // ---- the scene: (bytes, target id, streams still held open, "scene is set" test)
+    let mut setup: Vec<u8> = vec![];
+    let target;
+    let mut held: Vec<u32> = vec![];
+    let mut top = s3;
+    type Cond = Box<dyn Fn(&[Fr]) -> bool>;
+    let ready: Cond;
+    match case.scene {
+        Scene::IdleAbove => {
+            setup.extend(get(s1, "/"));
+            target = s3;
+            ready = Box::new(move |fs| stream_ended(fs, s1));
+        }
+        Scene::ClosedBelow => {
+            setup.extend(get(s2, "/"));
+            target = s1;
+            ready = Box::new(move |fs| stream_ended(fs, s2));
+        }
+        Scene::ClosedEndStreamLast => {
+            setup.extend(get(s1, "/"));
+            target = s1;
+            ready = Box::new(move |fs| stream_ended(fs, s1));
+        }
+        Scene::ClosedEndStreamBelow => {
+            setup.extend(get(s1, "/"));
+            setup.extend(get(s2, "/"));
+            target = s1;
+            ready = Box::new(move |fs| stream_ended(fs, s1) && stream_ended(fs, s2));
+        }
+        Scene::ClosedPeerRst => {
+            setup.extend(get(s1, "/hold/rst"));
+            setup.extend(frame(3, 0, s1, &8u32.to_be_bytes()));
+            setup.extend(ping(&MARK));
+            target = s1;
+            ready = Box::new(|fs| ping_acked(fs, &MARK));
+        }
+        Scene::RefusedLimit => {
+            setup.extend(get(s1, "/hold/a"));
+            setup.extend(get(s2, "/hold/b"));
+            setup.extend(get(s3, "/"));
+            held = vec![s1, s2];
+            target = s3;
+            ready = Box::new(move |fs| fs.iter().any(|f| f.ty == 3 && f.sid == s3));
+        }
+        Scene::RefusedDraining => {
+            setup.extend(get(s1, "/hold/drain"));
+            setup.extend(ping(&MARK));
+            held = vec![s1];
+            target = s2;
+            top = s2;
+            ready = Box::new(|fs| ping_acked(fs, &MARK));
+        }
+        Scene::HalfClosedRemote => {
+            setup.extend(get(s1, "/hold/half"));
+            setup.extend(ping(&MARK));
+            held = vec![s1];
+            target = s1;
+            ready = Box::new(|fs| ping_acked(fs, &MARK));
+        }
+        Scene::Open => {
+            setup.extend(frame(1, 0x4, s1, &request_block(true, "/hold/open")));
+            setup.extend(ping(&MARK));
+            held = vec![s1];
+            target = s1;
+            ready = Box::new(|fs| ping_acked(fs, &MARK));
+        }
+    }
+    let mut probe_frames = case.fk.bytes(target);
+    probe_frames.extend(ping(&DONE));
+    if case.batch {
+        setup.extend(&probe_frames);
+        c.send(&setup);
+    } else {
+        c.send(&setup);
+        if c.read_until(CASE_DEADLINE, |fs| ready(fs) || fs.iter().any(|f| f.ty == 7)) != End::Matched || c.goaway().is_some() {
+            fail(&mut v, "stream-scene-not-established", format!("goaway {:?}, {} frames", c.goaway(), c.frames.len()));
+            return v;
+        }
+        if case.scene == Scene::RefusedDraining {
+            // start the drain: SoftStop -> GOAWAY(NO_ERROR); then a new stream, which must be refused
+            let b = own.as_mut().unwrap();
+            let _ = b.worker.send(sozu_command_lib::proto::command::request::RequestType::SoftStop(sozu_command_lib::proto::command::SoftStop {}));
+            if c.read_until(CASE_DEADLINE, |fs| fs.iter().any(|f| f.ty == 7)) != End::Matched || c.goaway() != Some(0) {
+                v.tags.push("stream:draining-scene-unavailable".into());
+                b.stop_backend.store(true, Ordering::Relaxed);
+                drop(c);
+                b.worker.stop();
+                return v;
+            }
+            c.send(&get(s2, "/"));
+            if c.read_until(CASE_DEADLINE, |fs| fs.iter().any(|f| f.ty == 3 && f.sid == s2)) != End::Matched {
+                v.tags.push("stream:draining-new-stream-not-refused".into());
+                fail(&mut v, "draining-new-stream-not-refused", format!("rst {:?}", c.rst_codes()));
+            }
+        }
+        c.send(&probe_frames);
+    }
+    let draining = case.scene == Scene::RefusedDraining;
+    let hard_goaway = |fs: &[Fr]| fs.iter().any(|f| f.ty == 7 && f.payload.len() >= 8 && (!draining || f.payload[4..8] != [0, 0, 0, 0]));
+    let end = c.read_until(CASE_DEADLINE, |fs| ping_acked(fs, &DONE) || hard_goaway(fs));
+    // ---- what was the answer to the probe frame
+    let goaway_code = c.frames.iter().filter(|f| f.ty == 7 && f.payload.len() >= 8).map(|f| u32::from_be_bytes([f.payload[4], f.payload[5], f.payload[6], f.payload[7]])).find(|c| !draining || *c != 0);
+    let mut rsts: Vec<u32> = c.rst_codes().iter().filter(|(sid, _)| *sid == target).map(|(_, c)| *c).collect();
+    if case.scene.refused() {
+        // the refusal itself
+        if let Some(p) = rsts.iter().position(|c| *c == 7) {
+            rsts.remove(p);
+        }
+    }
+    let observed = if let Some(g) = goaway_code {
+        Out::CErr(g)
+    } else if let Some(r) = rsts.first() {
+        Out::SErr(*r)
+    } else if ping_acked(&c.frames, &DONE) {
+        Out::Handled
+    } else {
+        Out::Silent
+    };
+    v.observed = format!("{observed:?} (end {end:?}, rst on target {rsts:?})");
+    v.tags.push(format!("stream:{}:{}={:?}", case.scene.name(), case.fk.name(), observed));
+    let allowed = rfc_stream_allowed(case.scene, case.fk);
+    if draining && observed == Out::Silent && end == End::Closed {
+        // a draining worker may finish the connection at any moment after its GOAWAY(NO_ERROR):
+        // released, and not with a connection error - nothing to judge
+        v.tags.push("stream:draining-connection-closed-by-the-drain".into());
+        drop(c);
+        if let Some(mut b) = own {
+            b.stop_backend.store(true, Ordering::Relaxed);
+            b.worker.stop();
+        }
+        return v;
+    }
+    if observed == Out::Silent {
+        {
+            let o = v.observed.clone();
+            fail(&mut v, "stream-state-frame-unanswered", o);
+        }
+    } else if !allowed.contains(&observed) {
+        let class = if case.scene.refused() && matches!(observed, Out::CErr(_)) {
+            "refused-stream-frame-kills-connection"
+        } else if case.scene == Scene::IdleAbove && allowed == vec![Out::CErr(1)] {
+            "idle-stream-frame-not-connection-error"
+        } else if case.scene == Scene::Open || (case.scene == Scene::IdleAbove) {
+            "stream-state-wrong-answer"
+        } else {
+            "closed-stream-frame-wrong-error"
+        };
+        fail(&mut v, class, format!("observed {:?}, RFC 9113 5.1 allows {allowed:?}", observed));
+    }
+    let model_out = match model.split(' ').collect::<Vec<_>>()[..] {
+        ["handled"] => Some(Out::Handled),
+        ["serr", c] => c.parse().ok().map(Out::SErr),
+        ["cerr", c] => c.parse().ok().map(Out::CErr),
+        _ => None,
+    };
+    if model_out.as_ref() != Some(&observed) && observed != Out::Silent {
+        fail(&mut v, "stream-state-differs-from-model", format!("model `{model}`, observed {observed:?}"));
+    }
+    // ---- the rest of the connection must go on: free a slot, open a new stream, get its answer
+    if !matches!(observed, Out::CErr(_) | Out::Silent) && !draining {
+        let mut more = vec![];
+        if case.scene == Scene::RefusedLimit {
+            more.extend(frame(3, 0, held[0], &8u32.to_be_bytes()));
+        }
+        if case.scene == Scene::IdleAbove && case.fk == Fk::Headers && !c.read_until(CASE_DEADLINE, |fs| stream_ended(fs, target)).eq(&End::Matched) {
+            fail(&mut v, "healthy-stream-not-served-after-stream-state-frame", format!("the new stream {target} got no response"));
+        }
+        let n = top + 2 + 2 * (case.fk as u32);
+        more.extend(get(n, "/"));
+        c.send(&more);
+        let e = c.read_until(CASE_DEADLINE, |fs| stream_ended(fs, n) || fs.iter().any(|f| f.ty == 7));
+        if e != End::Matched || !c.got_200(n) {
+            fail(&mut v, "healthy-stream-not-served-after-stream-state-frame", format!("new stream {n}: {e:?}, goaway {:?}, rst {:?}", c.goaway(), c.rst_codes()));
+        } else {
+            v.tags.push("stream:healthy-stream-served-afterwards".into());
+        }
+    }
+    drop(c);
+    if let Some(mut b) = own {
+        b.stop_backend.store(true, Ordering::Relaxed);
+        b.worker.stop();
+    }
+    v
+}
+
 // -------------------------------------------------------------------- main ----
 
 struct Verdict {
@@ -556,6 +992,7 @@ fn main() {
     };
 
     let mut cases = build_cases(args.seed, thorough);
+    let mut stream_cases = build_stream_cases(args.seed, thorough);
     if let Some(path) = &args.replay {
         // replay: only the named case(s) of a `h2conn <name> …` replay file; a replay file of
         // the in-process binary (h2wire) holds nothing for this one
@@ -564,6 +1001,7 @@ fn main() {
             .filter_map(|o| o.strip_prefix("h2conn ").map(|r| r.split(' ').next().unwrap_or("").to_string()))
             .collect();
         let ping = frame(6, 0, 0, &[1, 2, 3, 4, 5, 6, 7, 8]);
+        stream_cases = names.iter().filter_map(|n| StreamCase::parse(n)).collect();
         cases = names
             .iter()
             .filter_map(|n| {
@@ -682,6 +1120,40 @@ fn main() {
             }
         }
     }
+    // ---- stream-state family (verdicts of the Lean table in one driver run)
+    let sinput: String = std::iter::once("new".to_string()).chain(stream_cases.iter().map(|c| format!("stream {} {}", c.scene.model_state(), c.fk.name()))).collect::<Vec<_>>().join("\n") + "\n";
+    let smodel: Vec<String> = run_model(&args.driver, &sinput).into_iter().skip(1).collect();
+    for (i, sc) in stream_cases.iter().enumerate() {
+        let m = smodel.get(i).cloned().unwrap_or_default();
+        let v = run_stream_case(&mut bed, sc, &m);
+        evaluations += 1;
+        nontrivial += 1;
+        for t in &v.tags {
+            *dist.entry(t.clone()).or_insert(0) += 1;
+        }
+        *dist.entry("kind:stream".into()).or_insert(0) += 1;
+        if i % 31 == 0 && samples.len() < 8 {
+            samples.push(json!({"case": sc.name(), "model": m, "observed": v.observed}));
+        }
+        let ops = vec![format!("h2conn {}", sc.name())];
+        for (class, detail) in &v.fails {
+            push_fail(&mut failures, class, detail, ops.clone());
+        }
+        if !v.fails.is_empty() || i % 25 == 24 {
+            if !bed.worker.alive().is_alive() {
+                push_fail(&mut failures, "worker-died-or-wedged", &format!("after {}", sc.name()), ops.clone());
+                break;
+            }
+            if let Some(g) = good.as_mut() {
+                if let Err(e) = good_request(g, good_sid) {
+                    push_fail(&mut failures, "concurrent-good-connection-not-served", &format!("after {}: {e}", sc.name()), ops.clone());
+                    good = None;
+                } else {
+                    good_sid += 2;
+                }
+            }
+        }
+    }
     bed.stop_backend.store(true, Ordering::Relaxed);
     drop(good);
     let rep = bed.worker.stop();
@@ -701,7 +1173,7 @@ fn finish(args: &Args, evaluations: u64, nontrivial: u64, failures: &[Value], kn
         "seed": args.seed,
         "evaluations": evaluations,
         "distinct_nontrivial": nontrivial,
-        "rule": "black box: one real worker (HTTPS listener, H1 backend), one TLS+h2 client connection per case: a complete random/corner frame after the settings exchange followed by a PING (verdict: the Lean decoder's: err c => GOAWAY(c), exact on stream 0 and for oversize, any of PROTOCOL/STREAM_CLOSED/FRAME_SIZE or a stream error when stream state is consulted first; ok => answered, never silence), PING/SETTINGS/WINDOW_UPDATE/CONTINUATION floods with the trip point predicted by the Lean flood model (acknowledged-frame count compared), empty-DATA and rapid-reset floods, zero increment, window overflow, stray CONTINUATION, 120 unanswered requests vs the advertised 100-stream limit, first-SETTINGS payloads vs the model's first_settings; after a GOAWAY the connection must be closed; worker.alive(), a long-lived good connection and a fresh probe connection must keep being served",
+        "rule": "black box: one real worker (HTTPS listener, H1 backend), one TLS+h2 client connection per case: a complete random/corner frame after the settings exchange followed by a PING (verdict: the Lean decoder's: err c => GOAWAY(c), exact on stream 0 and for oversize, any of PROTOCOL/STREAM_CLOSED/FRAME_SIZE or a stream error when stream state is consulted first; ok => answered, never silence), PING/SETTINGS/WINDOW_UPDATE/CONTINUATION floods with the trip point predicted by the Lean flood model (acknowledged-frame count compared), empty-DATA and rapid-reset floods, zero increment, window overflow, stray CONTINUATION, 120 unanswered requests vs the advertised 100-stream limit, first-SETTINGS payloads vs the model's first_settings; stream-state family on a listener with h2_max_concurrent_streams=2: DATA/HEADERS/WINDOW_UPDATE/RST_STREAM/PRIORITY/CONTINUATION on a stream id that is idle (above every used id), implicitly closed (below), closed by END_STREAM (equal to / below the last id), closed by the peer's RST_STREAM, refused by the stream limit, refused while draining after SoftStop's GOAWAY (own worker), half-closed (remote), open - sent after the scene is established and in one batch with it, random odd ids in thorough; judged by an RFC 9113 5.1 table written here and compared exactly with the Lean table `headerVerdict`; afterwards a slot is freed and a new stream on the same connection must be answered 200; after a GOAWAY the connection must be closed; worker.alive(), a long-lived good connection and a fresh probe connection must keep being served",
         "samples": samples,
         "traces_validated_against_impl": evaluations - failures.len() as u64,
         "disagreements_checked": evaluations,
